@@ -18,13 +18,15 @@ def sc(name, defs, K=2, recl=10, unwind=4, **kw):
 
 def scenarios(tier):
     s = [sc('set-traverse13-vs-ins2', ['PRE=10', 'MODE=1', 'T2A=12']),            # F6: the element in front of the inserted one was yielded twice
-         sc('set-traverse123-vs-era2', ['PRE=14', 'MODE=1', 'T2A=22']),
-         sc('set-traverse12-vs-era1', ['PRE=6', 'MODE=1', 'T2A=21']),
          sc('map-traverse13-vs-ins2', ['USE_MAP', 'PRE=10', 'MODE=1', 'T2A=12']),
-         sc('set-eraseit2-vs-era2', ['PRE=14', 'MODE=2', 'FK=2', 'T2A=22']),
-         sc('set-eraseit2-vs-ins3', ['PRE=6', 'MODE=2', 'FK=2', 'T2A=13'])]
+         sc('set-traverse12-vs-ins3', ['PRE=6', 'MODE=1', 'T2A=13'])]
     if tier == 'thorough':
-        s += [sc('set-traverse123-vs-era2-hp', ['PRE=14', 'MODE=1', 'T2A=22', 'HPK=3'], recl=1),
+        # an updater that erases makes the encoding several times larger (minutes to an hour per scenario)
+        s += [sc('set-traverse123-vs-era2', ['PRE=14', 'MODE=1', 'T2A=22']),
+              sc('set-traverse12-vs-era1', ['PRE=6', 'MODE=1', 'T2A=21']),
+              sc('set-eraseit2-vs-era2', ['PRE=14', 'MODE=2', 'FK=2', 'T2A=22']),
+              sc('set-eraseit2-vs-ins3', ['PRE=6', 'MODE=2', 'FK=2', 'T2A=13']),
+              sc('set-traverse123-vs-era2-hp', ['PRE=14', 'MODE=1', 'T2A=22', 'HPK=3'], recl=1),
               sc('set-traverse12-vs-era1-ebr', ['PRE=6', 'MODE=1', 'T2A=21'], recl=5),
               sc('map-traverse123-vs-era2', ['USE_MAP', 'PRE=14', 'MODE=1', 'T2A=22']),
               sc('set-traverse13-vs-ins2-K3', ['PRE=10', 'MODE=1', 'T2A=12'], K=3),
